@@ -56,7 +56,7 @@ def run_quantile_case(case):
         r = np.asarray(r)
         out["shape"] = list(r.shape)
         out["groups"] = redcase.label_tokens(g, case.get("label_kind", "int"))
-        out["result"] = [redcase.pv(x, 1e-9) for x in r.reshape(-1)]
+        out["result"] = [redcase.pv_out(x, 1e-9) for x in r.reshape(-1)]
     except redcase.ProjectionError as e:
         out.update(exc="ProjectionError", msg=str(e))
     except Exception as e:  # noqa: BLE001
